@@ -22,6 +22,8 @@ func corpusPrograms(ctx *core.Ctx) []*dsl.Program {
 	out = append(out, dsl.P5()...)
 	out = append(out, dsl.P6()...)
 	out = append(out, dsl.Universal())
+	// the targeted shapes (keys at the extremes of their type, leading zeros, alias spellings ...) are texts like any other
+	out = append(out, targetedFamilies()...)
 	return out
 }
 
